@@ -55,6 +55,10 @@ func (self ValueObject) IsEqual(other Value) (bool, *VmInterrupt) {
 		if !found {
 			return false, nil
 		}
+		// Values of different kinds are never equal (and must not be compared: `IsEqual` type-asserts).
+		if (*value).Kind() != (*otherValue).Kind() {
+			return false, nil
+		}
 		isEqual, i := (*value).IsEqual(*otherValue)
 		if i != nil {
 			return false, i
